@@ -105,6 +105,12 @@ def step (st : St) (toks : List String) : St × String :=
     match (kv? "events" [n]).bind String.toNat? with
     | some _ => (st, "drained")
     | none => (st, "bad-op")
+  | ["operator-startup", n] =>
+    -- start-up on a cluster: every kubernetes binding without a group that is executed on Synchronization
+    -- gets exactly one Synchronization execution, the others none, and the main queue drains
+    match (kv? "binds" [n]).bind String.toNat? with
+    | some _ => (st, "synced")
+    | none => (st, "bad-op")
   | ["oracle", "nodelay", reqs, starts] =>
     -- hooks without settings are not throttled: every execution starts at its request time
     match (kv? "reqs" [reqs]).bind intList?, (kv? "starts" [starts]).bind intList? with
